@@ -96,6 +96,7 @@ def parse_sched_op(tok):
 class Ref:
     target: object            # Inst | Alias
     passive: bool = False
+    via: tuple = ()           # path of the last nested/try call whose return port this reference was taken from
 
 
 class Alias:
@@ -138,7 +139,7 @@ def _resolve(ref):
     while isinstance(t, Alias):
         if t.to is None:
             raise FlattenError("unbound delayed binding")
-        ref = Ref(t.to.target, ref.passive or t.to.passive)
+        ref = Ref(t.to.target, ref.passive or t.to.passive, t.to.via or ref.via)
         t = ref.target
         seen += 1
         if seen > 100:
@@ -166,7 +167,7 @@ def flatten(case) -> Flat:
                 passive = True
                 name = name[1:]
             r = env[name]
-            return Ref(r.target, r.passive or passive)
+            return Ref(r.target, r.passive or passive, r.via)
 
         for st in case.graphs[gname]:
             op = st.op
@@ -191,6 +192,8 @@ def flatten(case) -> Flat:
                 key = None
                 sub_path = path + ((op, sid, len(insts)),)
                 r = run_graph(f"sub{sid}", args, sub_path)
+                if op == "nested" and r is not None:
+                    r = Ref(r.target, r.passive, sub_path)
                 if op == "try":
                     # the try_except node itself: its result bundle depends on everything inside and on the arguments
                     r = Ref(new("trynode", None, {}, ([r] if r is not None else []) + args, sub_path))
@@ -304,7 +307,9 @@ def sampled_start_insts(flat):
             if r.passive:
                 continue
             tp = r.target.path
-            if tp[:k] != mine:       # produced outside this nested graph: a boundary input
+            if tp[:k] != mine and r.via[:k] != mine:
+                # produced outside this nested graph and not handed over by a nested call inside it (whose output node is
+                # the direct producer then): a boundary input
                 out.append(i.id)
                 break
     return out
